@@ -31,10 +31,11 @@ EXPLANATION = (
     "itemref cannot be resolved. (DIM) = C04-DIM, (VIEW) = C14-VIEW: get_dim() is the shape of get_table(); unit tables and "
     "iterate_tables() are built from the same fields."
     " (GRID) implicit grid positions are made explicit: the DOCX table reader pads rows for w:gridSpan / w:gridBefore / w:gridAfter; the XLSX reader calls reset_dimensions() on every path to iter_rows(), so a stale <dimension> element cannot clip the sheet."
+    " (STACK) in the HTML tree builder an element leaves the open-element stack only under a condition that relates the tag's name to the stack; the start tags of td / th / tr close an open cell / row through a table (optional end tags); parsers that keep the table being read in flat attributes save them when a table starts inside a table. (CHUNK) the pieces of character data html.parser delivers are joined with the empty string, and breaks of block boundaries are routed into an open cell. (TAIL) element tails are emitted whenever they are non-empty. (RTF) one table row per \\\\row, and the break between two tables does not depend on the length of what separates them (3 open findings: the pinned suite asserts the table count the two defects produce)."
 )
 NOT_DECIDED = [
     "the value in a cell (numbers, dates, formula results: value level)",
-    "EPUB tables (HTMLParser state machine), RTF tables (regular expressions over control words)",
+    "EPUB and RTF tables beyond the clauses STACK / CHUNK / RTF (cell values, merged cells)",
     "ragged rows and merged cells (grid geometry is value level)",
     "order of tables in the output", "index arithmetic of the trimming code (which column index is recorded as the last data column)"]
 TRUSTED = ["the tree grammars in sa/schemas", "ElementTree axis semantics", "openpyxl iter_rows(values_only=True) yields every cell of the used range"]
